@@ -74,6 +74,11 @@ func (bucket *Bucket) _closeSqliteDB() {
 	for _, c := range bucket.collections {
 		c.close()
 	}
+	// Feeds are registered in a map shared by every handle of the bucket: a feed started through
+	// another handle, on a collection this handle never opened, has to end with the store as well.
+	for name := range bucket.collectionFeeds {
+		bucket._stopFeedsOf(name)
+	}
 	if bucket.sqliteDB != nil {
 		bucket.sqliteDB.Close()
 		bucket.collections = nil
@@ -296,6 +301,8 @@ func (bucket *Bucket) dropCollection(name sgbucket.DataStoreNameImpl) error {
 		c.close()
 		delete(bucket.collections, name)
 	}
+	// the collection's feeds may have been started through another handle
+	bucket._stopFeedsOf(name)
 
 	_, err := bucket._db().Exec(`DELETE FROM collections WHERE scope=? AND name=?`, name.ScopeName(), name.CollectionName())
 	if err != nil {
@@ -326,6 +333,9 @@ func (bucket *Bucket) expireDocuments() (int64, error) {
 	var count int64
 	for _, name := range names {
 		if coll, err := bucket.getCollection(name.(sgbucket.DataStoreNameImpl)); err != nil {
+			if _, dropped := err.(sgbucket.MissingError); dropped {
+				continue // the collection was dropped after it was listed: nothing left to expire in it
+			}
 			return 0, err
 		} else if n, err := coll.expireDocuments(); err != nil {
 			return 0, err
